@@ -118,38 +118,43 @@ fn short_conv(s: &Conv) -> String {
     }
 }
 
-fn cb_eq(exp: &Cb, got: &Cb) -> Result<(), (String, String)> {
+/// Err((rule, site, detail)); rule is "callback-args" for routing/argument mismatches and
+/// "param-count" / "param-type" / "param-value" / "param-conv" for parameter-level ones
+fn cb_eq(exp: &Cb, got: &Cb) -> Result<(), (&'static str, String, String)> {
     match (exp, got) {
         (Cb::Execute { stmt: a, params: pa }, Cb::Execute { stmt: b, params: pb }) => {
             if a != b {
-                return Err(("execute stmt id".into(), format!("id {} delivered, {} sent", b, a)));
+                return Err(("callback-args", "execute stmt id".into(), format!("id {} delivered, {} sent", b, a)));
             }
             if pa.len() != pb.len() {
                 return Err((
+                    "param-count",
                     "execute param count".into(),
                     format!("{} parameters delivered, {} declared", pb.len(), pa.len()),
                 ));
             }
             for (i, (x, y)) in pa.iter().zip(pb.iter()).enumerate() {
                 if let Err(e) = param_eq(x, y) {
-                    let what = if x.coltype != y.coltype {
-                        "param type"
+                    let (rule, what) = if x.coltype != y.coltype {
+                        ("param-type", "param type".to_string())
                     } else if x.val != y.val {
-                        "param value"
+                        ("param-value", format!("param value (type {:#x})", x.coltype))
                     } else {
-                        "param conversion"
+                        ("param-conv", format!("param conversion (type {:#x})", x.coltype))
                     };
-                    return Err((what.into(), format!("param #{}: {}", i, e)));
+                    return Err((rule, what, format!("param #{}: {}", i, e)));
                 }
             }
             Ok(())
         }
         (a, b) if a == b => Ok(()),
         (a, b) if a.kind() != b.kind() => Err((
+            "callback-args",
             format!("{} instead of {}", b.kind(), a.kind()),
             format!("got {}, expected {}", b.short(), a.short()),
         )),
         (a, b) => Err((
+            "callback-args",
             format!("{} args", a.kind()),
             format!("got {}, expected {}", b.short(), a.short()),
         )),
@@ -183,13 +188,16 @@ pub fn o_callbacks(plan: &Plan, out: &Outcome, vs: &mut Vec<Violation>) {
                     return;
                 }
                 Some((_, g)) => {
-                    if let Err((site, d)) = cb_eq($exp, g) {
+                    if let Err((rule, site, d)) = cb_eq($exp, g) {
                         vs.push(v(
-                            "callback-args",
+                            rule,
                             site,
                             format!("unit {} ({}): {}", $unit, unit_name(plan, $unit), d),
                         ));
-                        return;
+                        if rule == "callback-args" {
+                            return;
+                        }
+                        // parameter-level mismatch: routing is still comparable
                     }
                     gi += 1;
                 }
